@@ -15,6 +15,7 @@ import copy
 import numpy as np
 
 from fcv import cli_scen as cs
+from fcv import cliopt_p6g1c as p6
 from fcv.num import f2u
 
 WHAT = "exit status of `fieldcompare file` differs from the documented comparison semantics"
@@ -172,11 +173,27 @@ def token_cases(ctx):
 
 # ---------------------------------------------------------------- scenario level
 
+def _run(sc, wd, junit=True):
+    """run one scenario; a scenario carrying a presentation variant (`sc["p6"]`: verbosity, --diff, long option names,
+    option order, relative paths, same path twice, fresh process) is put on the command line that way"""
+    if sc.get("p6"):
+        return p6.run_file_scenario(sc, wd, junit=junit)
+    return cs.run_file_scenario(sc, wd, junit=junit)
+
+
 def evaluate(ctx, items, wd):
     """items = [(scenario, tags)]: run the implementation, the model, the oracles; record"""
-    runs = [cs.run_file_scenario(sc, wd, junit=(i % 2 == 0)) for i, (sc, _) in enumerate(items)]
-    lines = [cs.cli_line("cli", cs.abstract(sc, r["parts"])) for (sc, _), r in zip(items, runs)]
-    reps = ctx.lean(lines) if ctx.driver_ok else [None] * len(lines)
+    runs = [_run(sc, wd, junit=(i % 2 == 0)) for i, (sc, _) in enumerate(items)]
+    # (cases tagged "p6-nolean" — tables with thousands of rows, whose protocol line has megabytes — are decided by the
+    # python oracle alone)
+    nolean = ["p6-nolean" in tags for _, tags in items]
+    lines = [("nolean " + repr(sc)) if nl else cs.cli_line("cli", cs.abstract(sc, r["parts"]))
+             for (sc, _), r, nl in zip(items, runs, nolean)]
+    reps = [None] * len(lines)
+    if ctx.driver_ok:
+        idx = [i for i, nl in enumerate(nolean) if not nl]
+        for i, rep in zip(idx, ctx.lean([lines[i] for i in idx])):
+            reps[i] = rep
     for (sc, tags), r, line, rep in zip(items, runs, lines, reps):
         oc = cs.outcome_class(r["out"])
         py = cs.py_eval(sc)["exit"]
@@ -214,7 +231,7 @@ def evaluate(ctx, items, wd):
 def _reproducible(ctx, sc, wd, oc) -> bool:
     """re-run the implementation on a disagreeing scenario: a disagreement that does not reproduce is recorded as a
     note (non-repeatable behaviour of the implementation or of the machine is C19's subject), not as a mismatch"""
-    again = cs.outcome_class(cs.run_file_scenario(sc, wd, junit=False)["out"])
+    again = cs.outcome_class(_run(sc, wd, junit=False)["out"])
     if again != oc:
         ctx.dist["impl-nonreproducible"] += 1
         ctx.notes.append(f"implementation outcome not reproducible on immediate re-run: first={oc} second={again} "
@@ -224,7 +241,7 @@ def _reproducible(ctx, sc, wd, oc) -> bool:
 
 
 def _violates(sc, wd) -> bool:
-    r = cs.run_file_scenario(sc, wd, junit=False)
+    r = _run(sc, wd, junit=False)
     py = cs.py_eval(sc)["exit"]
     return r["readok"] and py is not None and (cs.outcome_class(r["out"]) == "0") != (py == "0")
 
@@ -247,6 +264,10 @@ def shrink(sc, wd):
             pass
         return False
 
+    if cur.get("p6"):
+        if not attempt(lambda c: c.pop("p6")):
+            for k in list(cur["p6"]):
+                attempt(lambda c, k=k: c["p6"].pop(k))
     for key in ("rtol", "atol", "incl", "excl"):
         attempt(lambda c, k=key: c.__setitem__(k, None))
         i = 0
@@ -340,13 +361,143 @@ def cellfield_tolerance_scenarios(rng, k):
     return out
 
 
+# ---------------------------------------------------------------- phase 6 (G1c): dimensions of the quantifier sampled at one point only
+
+def meshflag_batch(ctx, wd, rng, nbase):
+    """search (expectation computed in `fcv.cliopt_p6g1c.meshflag_want`, not by the Lean model — the abstract scenario has
+    neither unconnected points nor a space dimension): every combination of the three mesh flags on meshes that need them"""
+    for c in p6.meshflag_cases(rng, nbase):
+        out = p6.run_meshflag_case(c, wd)
+        tags = ["p6-meshflags", "p6-mesh-" + c["variant"], "exit-" + cs.outcome_class(out)] + \
+               ["p6-flag-" + k for k, v in sorted(c["mflags"].items()) if v] + (["p6-mesh-gross"] if c["gross"] else [])
+        if c["want"] is None:
+            tags.append("p6-undemanded")
+        ctx.case(("meshflags", c["variant"], str(c["mflags"]), c["gross"], str(c["res"]["points"][:2])), nontrivial=True,
+                 tags=tags, sample=None)
+        if p6.meshflag_bad(c, out) and p6.meshflag_bad(c, p6.run_meshflag_case(c, wd)):
+            ctx.violation(c, out, c["want"], cls=None, what=WHAT + " (mesh flags: " + c["why"] + ")")
+
+
+def report_failure_batch(ctx, wd, rng, k):
+    """a comparison that must fail, with a report path that cannot be written: the failure must not be lost together with
+    the report (nothing is demanded here of a PASSING comparison whose report cannot be written)"""
+    import os
+    done = tries = 0
+    while done < k and tries < 40 * k:
+        tries += 1
+        sc, tags = cs.gen_csv_scenario(rng) if rng.random() < 0.7 else cs.gen_mesh_scenario(rng)
+        if cs.py_eval(sc)["exit"] != "nz":
+            continue
+        d = wd.fresh()
+        try:
+            res, ref = cs.materialise(sc, d)
+            if not cs.read_check(sc, res, ref):
+                continue
+            argv = ["file", res, ref] + cs.option_argv(sc) + ["--junit-xml", os.path.join(d, "no", "such", "dir", "r.xml")]
+            out, _ = cs.run_cli(argv)
+        finally:
+            wd.drop(d)
+        done += 1
+        ctx.case(("junit-bad", cs.cli_line("cli", cs.abstract(sc, ["x"]))), nontrivial=True,
+                 tags=[tags[0], "p6-report-unwritable", "exit-" + cs.outcome_class(out)])
+        if cs.outcome_class(out) == "0":
+            ctx.violation(dict(sc, p6_report_unwritable=True), out, "nz", cls=None,
+                          what=WHAT + " (failing comparison, unwritable --junit-xml path)")
+
+
+def subprocess_batch(ctx, wd, rng, k):
+    """process exit status of a FRESH interpreter running the console-script wrapper (`sys.exit(main())`): first-call
+    behaviour of every module-level object, the value handed to sys.exit; zero iff the oracle says zero, and the same
+    zero / non-zero class as the in-process call"""
+    want_classes = ["0", "nz", "nz", "0", "raised", "nz", "0", "nz"]
+    done = tries = 0
+    while done < k and tries < 400:
+        tries += 1
+        sc, tags = cs.gen_csv_scenario(rng) if rng.random() < 0.7 else cs.gen_mesh_scenario(rng)
+        if not p6._eq_safe(sc):
+            continue
+        py = cs.py_eval(sc)["exit"]
+        rejected = cs.py_parse_tols(sc["rtol"], False) is None or cs.py_parse_tols(sc["atol"], True) is None
+        cls = "raised" if rejected else py
+        if cls != want_classes[done % len(want_classes)]:
+            continue
+        sc["p6"] = dict(p6.gen_presentation(rng))
+        inproc = _run(sc, wd, junit=False)
+        if not inproc["readok"]:
+            continue
+        sc["p6"]["subprocess"] = True
+        r = _run(sc, wd, junit=False)
+        done += 1
+        ctx.case(("subprocess", cs.cli_line("cli", cs.abstract(sc, r["parts"])), str(sc["p6"])), nontrivial=True,
+                 tags=list(tags) + ["p6-subprocess", "p6-process-status-%s" % r["out"]] + p6._ptags(sc["p6"]))
+        zero = r["out"] == 0
+        if py is not None and zero != (py == "0"):
+            ctx.violation(sc, r["out"], py, cls=None, what=WHAT + " (process exit status, python oracle)")
+        elif zero != (cs.outcome_class(inproc["out"]) == "0"):
+            ctx.violation(sc, r["out"], "in-process: %s" % (inproc["out"],), cls=None,
+                          what="process exit status of a fresh interpreter differs from the in-process exit code")
+
+
+def sequence_batch(ctx, wd, rng, k):
+    """several invocations in ONE process on the SAME two paths whose contents are rewritten in between (the other batches
+    use fresh paths for every scenario, and forgive a disagreement that does not reproduce on an immediate re-run)"""
+    for _ in range(k):
+        seq = p6.gen_sequence(rng)
+        res = p6.run_sequence(seq, wd)
+        for sc, (o, want, readok) in zip(seq["steps"], res):
+            ctx.case(("sequence", cs.cli_line("cli", cs.abstract(sc, ["x"]))), nontrivial=True,
+                     tags=[seq["fmt"], "p6-same-paths-rewritten", "exit-" + cs.outcome_class(o)] +
+                          ([] if readok else ["discarded-reader-sidecheck"]))
+        i = p6.sequence_bad(res)
+        if i is not None and p6.sequence_bad(p6.run_sequence(seq, wd)) is not None:
+            seq["steps"] = seq["steps"][:i + 1]
+            while len(seq["steps"]) > 1 and p6.sequence_bad(p6.run_sequence(dict(seq, steps=seq["steps"][1:]), wd)) is not None:
+                seq["steps"] = seq["steps"][1:]
+            ctx.violation(seq, res[i][0], res[i][1], cls=None,
+                          what=WHAT + " (last of a sequence of invocations on the same paths in one process)")
+
+
+def p6_batches(ctx, wd):
+    """all drawn from a generator of their own (the stream of the older batches is unchanged)"""
+    import random
+    rng = random.Random(ctx.rng.getrandbits(64))
+    if p6.disabled():
+        ctx.notes.append("phase-6 G1c batches disabled by " + p6.OFF_ENV)
+        return
+    import time
+    thorough = ctx.tier == "thorough"
+    sizes = [0, 1, 2, 17, 64, 999, 1000, 1001, 1024, 1025, 2049, 4100] + ([70000] if thorough else [])
+    timings = []
+
+    def timed(name, fn):
+        t0, n0, d0 = time.time(), ctx.evaluations, ctx.dist["discarded-reader-sidecheck"]
+        fn()
+        timings.append(f"{name}: {ctx.evaluations - n0} cases, {ctx.dist['discarded-reader-sidecheck'] - d0} discarded, "
+                       f"{time.time() - t0:.1f}s")
+    timed("sizes", lambda: evaluate(ctx, p6.size_scenarios(rng, sizes, per_size=ctx.scale(2, 6)), wd))
+    timed("maxside", lambda: evaluate(ctx, p6.maxside_scenarios(rng, rounds=ctx.scale(2, 20)), wd))
+    timed("ignore-matrix", lambda: evaluate(ctx, p6.ignore_matrix_scenarios(rng, nbase=ctx.scale(1, 12)), wd))
+    timed("role-swap", lambda: evaluate(ctx, p6.swap_scenarios(rng, ctx.scale(90, 4000)), wd))
+    timed("verbosity-sweep", lambda: evaluate(ctx, p6.verbosity_sweep(rng, ctx.scale(6, 80)), wd))
+    timed("same-file", lambda: evaluate(ctx, p6.samefile_scenarios(rng, ctx.scale(8, 100)), wd))
+    timed("presentation", lambda: evaluate(ctx, p6.presentation_scenarios(rng, ctx.scale(120, 6000)), wd))
+    timed("mesh-flags", lambda: meshflag_batch(ctx, wd, rng, ctx.scale(2, 40)))
+    timed("same-paths-rewritten", lambda: sequence_batch(ctx, wd, rng, ctx.scale(12, 300)))
+    timed("report-unwritable", lambda: report_failure_batch(ctx, wd, rng, ctx.scale(10, 150)))
+    timed("subprocess", lambda: subprocess_batch(ctx, wd, rng, ctx.scale(4, 48)))
+    ctx.notes.append("phase-6 G1c batches: " + "; ".join(timings))
+
+
 def run(ctx):
     ctx.rule = ("cases = decision-table entries, tolerance-argument lists x queried name, and file-mode scenarios "
                 "(logical result/reference data: CSV tables, unstructured meshes written as .vtu, .pvd sequences; edits: "
                 "perturb a value below/at/above its effective tolerance, change an integer/string, drop/add/rename a field, "
                 "change the row count, move a point inside/outside the domain tolerance, rewire a cell, reorder the mesh, "
                 "damage or remove a file; options: global/per-field/*max/domain: tolerances, include/exclude globs, ignore / "
-                "force / mesh flags, --read-as).  non-trivial = a scenario with at least one edit, damage or flag recorded in "
+                "force / mesh flags, --read-as; phase 6: the same scenarios under other presentations on the command line "
+                "(--verbosity, --diff, long names, opt=value, option order, relative paths, same path twice, fresh process), "
+                "roles swapped, 0 ... 70 000 rows, value*max with the maximum on one side, ignore-flag x missing-side matrix, "
+                "mesh flags on meshes with unconnected points / a 2-d vs 3-d embedding).  non-trivial = a scenario with at least one edit, damage or flag recorded in "
                 "its tags (token lists: non-empty); distinct = distinct protocol line (all values, tokens, options)")
     ctx.assumptions += [
         "argparse delivers the option strings unchanged; float(str) as tabulated by the harness with CPython's float",
@@ -373,6 +524,7 @@ def run(ctx):
             items = [cs.gen_scenario(ctx.rng) for _ in range(min(CH, n - done))]
             evaluate(ctx, items, wd)
             done += len(items)
+        p6_batches(ctx, wd)
         ctx.spec_viol = [dict(v, case=(shrink(v["case"], wd) if "flags" in v["case"] else v["case"]))
                          for v in ctx.spec_viol[:20]]
     finally:
@@ -384,7 +536,7 @@ def _replay_case(ctx, sc):
     try:
         if "flags" not in sc:      # decision-table / token-level case
             return None, None, None
-        r = cs.run_file_scenario(sc, wd, junit=False)
+        r = _run(sc, wd, junit=False)
         rep = None
         if ctx.driver_ok:
             rep = ctx.lean([cs.cli_line("cli", cs.abstract(sc, r["parts"]))])[0]
@@ -398,14 +550,69 @@ def replay_witness(ctx, entry):
     if isinstance(w, dict) and "fn" in w:
         from fcv import core
         return core.run_named_witness(entry)
+    sp = _replay_special(w) if isinstance(w, dict) else None
+    if sp is not None:
+        return sp[0], {"replay": sp[1]}
     r, py, rep = _replay_case(ctx, w)
     oc = cs.outcome_class(r["out"])
     want = py if py is not None else (rep or {}).get("spec")
     return (want is not None and (oc == "0") != (want == "0")), {"impl": r["out"], "expected": want}
 
 
+def _replay_special(sc):
+    """phase-6 cases that do not go through the model: -> (bad, text) or None"""
+    import os
+    if sc.get("kind") == "p6-meshflags":
+        wd = cs.Workdir()
+        try:
+            out = p6.run_meshflag_case(sc, wd)
+        finally:
+            wd.close()
+        want, why = p6.meshflag_want(sc)
+        return (want is not None and (cs.outcome_class(out) == "0") != (want == "0"),
+                f"mesh flags {p6.meshflag_argv(sc, 'RES', 'REF')[3:]} variant={sc['variant']} gross={sc['gross']} impl={out} "
+                f"expected={want} ({why})")
+    if sc.get("kind") == "p6-sequence":
+        wd = cs.Workdir()
+        try:
+            res = p6.run_sequence(sc, wd)
+        finally:
+            wd.close()
+        return (p6.sequence_bad(res) is not None,
+                "sequence on the same paths: " + "; ".join(f"step {i}: impl={o} expected={w}" for i, (o, w, _) in enumerate(res)))
+    if sc.get("p6_report_unwritable"):
+        wd = cs.Workdir()
+        try:
+            d = wd.fresh()
+            res, ref = cs.materialise(sc, d)
+            out, _ = cs.run_cli(["file", res, ref] + cs.option_argv(sc) + ["--junit-xml", os.path.join(d, "no", "dir", "r.xml")])
+        finally:
+            wd.close()
+        return cs.outcome_class(out) == "0", f"failing comparison + unwritable report: impl={out} expected=nz"
+    if (sc.get("p6") or {}).get("subprocess"):
+        wd = cs.Workdir()
+        try:
+            r = _run(sc, wd, junit=False)
+            s2 = dict(sc, p6={k: v for k, v in sc["p6"].items() if k != "subprocess"})
+            inproc = _run(s2, wd, junit=False)
+        finally:
+            wd.close()
+        py = cs.py_eval(sc)["exit"]
+        zero = r["out"] == 0
+        bad = (zero != (py == "0")) if py is not None else (zero != (cs.outcome_class(inproc["out"]) == "0"))
+        return bad, f"argv={r['argv'][3:]} process-status={r['out']} in-process={inproc['out']} python-oracle={py}"
+    return None
+
+
 def replay(ctx, payload):
     sc = payload["case"]
+    sp = _replay_special(sc)
+    if sp is not None:
+        print("replay: " + sp[1])
+        if sp[0]:
+            print(f"VIOLATION property=C04 replay={payload.get('_path', '<replay>')}")
+            return 1
+        return 0
     if "flags" not in sc:
         if sc.get("op") == "FieldToleranceMap":
             impl = impl_tolfor(sc["tokens"], sc["dynamic"], sc["name"])
